@@ -240,6 +240,17 @@ func (v *fnVC) applyCall(in ssa.Instruction, ci calleeInfo, args []*T, st *State
 		}
 		return &T{Sort: so, Tuple: results}
 	}
+	if ci.ct == nil && ci.fn != nil && pureByDefault(ci.fn) {
+		// a package-level function of a value-only standard-library package (strings, strconv,
+		// unicode, fmt, errors, path, math ...) without an assumed contract: it writes nothing the
+		// caller can see; its result is unconstrained
+		for _, r := range results {
+			v.assumeWellFormed(r, st)
+		}
+		v.e.uses["standard-library value functions without a written contract (strings, strconv, unicode, utf8, fmt, errors, path, filepath, math, cmp) are treated as pure with an unconstrained result"] = true
+		v.notes = append(v.notes, fmt.Sprintf("call to %s at %s has no contract: treated as pure, result unconstrained", ci.display, v.pos(in.Pos())))
+		return pack()
+	}
 	if ci.ct == nil {
 		// no contract: nothing is known afterwards
 		st.havocAll()
@@ -350,6 +361,9 @@ func (v *fnVC) applyCall(in ssa.Instruction, ci calleeInfo, args []*T, st *State
 		}
 		e.assume(tImp(R, mk(sapp("and", sapp(">=", ref, old.next().S), sapp("<", ref, st.next().S)), sBool)))
 	}
+	if strings.HasPrefix(ct.Key, "fnparam:") && strings.HasSuffix(ct.Key, ".yield") && len(results) == 1 && results[0].Sort.Kind == KBool {
+		st.set(ghostStopped, tOr(st.get(ghostStopped, sBool), tNot(results[0])))
+	}
 	// `always` clauses of the function under proof: a two-state invariant (entry state vs
 	// the state right after this call) - every intermediate state a crash or a concurrent
 	// observer could see between two calls satisfies it.
@@ -372,6 +386,41 @@ func (v *fnVC) applyCall(in ssa.Instruction, ci calleeInfo, args []*T, st *State
 		}
 	}
 	return pack()
+}
+
+// returnsFromInside: block b (which returns) is reached only through the loop's header and not
+// through the loop's normal exit (a successor of the header outside the body): a return that
+// leaves the loop early.
+func returnsFromInside(li *loopInfo, b *ssa.BasicBlock) bool {
+	if !li.header.Dominates(b) {
+		return false
+	}
+	for _, s := range li.header.Succs {
+		if !li.body[s.Index] && s.Dominates(b) {
+			return false
+		}
+	}
+	return true
+}
+
+// pureByDefault: package-level functions (no receiver) of standard-library packages that only
+// compute values from their arguments.
+func pureByDefault(fn *ssa.Function) bool {
+	if fn.Signature.Recv() != nil || fn.Pkg == nil || fn.Pkg.Pkg == nil {
+		return false
+	}
+	ps := fn.Signature.Params()
+	for k := 0; k < ps.Len(); k++ {
+		switch ps.At(k).Type().Underlying().(type) {
+		case *types.Signature, *types.Pointer, *types.Map, *types.Chan:
+			return false // callbacks and mutable arguments: not a pure value function
+		}
+	}
+	switch fn.Pkg.Pkg.Path() {
+	case "strings", "strconv", "unicode", "unicode/utf8", "fmt", "errors", "path", "path/filepath", "math", "math/bits", "cmp":
+		return true
+	}
+	return false
 }
 
 func (v *fnVC) ctProps() []string {
@@ -745,6 +794,17 @@ func (v *fnVC) ret(i *ssa.Return, st *State) {
 	}
 	if v.ct.YieldN != "" {
 		v.producerReturn(i, st)
+	}
+	// `loop N return-requires E`: a return from inside loop N needs E (an iterator body may
+	// only leave its loop early when the consumer stopped it)
+	for k, c := range v.ct.RetReqs {
+		for _, li := range v.loops {
+			if li.ordinal == c.Loop && returnsFromInside(li, i.Block()) {
+				x := v.exFor(st, v.entry, nil)
+				x.resolve = v.resolver(i.Block(), st, nil)
+				v.oblige("return-requires", fmt.Sprintf("loop%d.return-requires%s@ret%d", c.Loop, clauseTag(c, k), v.ordinal[i]), v.propsOf(c), c.Expr, v.pos(i.Pos()), v.reachNow(), x.Bool(c.Expr), st)
+			}
+		}
 	}
 	R := v.reachNow()
 	vars := map[string]*T{}
